@@ -1950,3 +1950,25 @@ silent("c16-unify-many-comprehension", ["C16"], UNF,
        "    return result\n",
        "    merged = [uni1.unify(uni2) for uni1 in unis1]\n"
        "    return [m for m in merged if m is not None]\n")
+
+fire("c16-replacement-multiset-counts-lost", ["C16"], TFF,
+     "                arg = multiset.Multiset({self.from_matchpy_expr(expr): count\n"
+     "                                         for expr, count in arg.items()})",
+     "                arg = multiset.Multiset({self.from_matchpy_expr(expr)\n"
+     "                                         for expr in arg})",
+     "T/matchpy/replacement/multiset/binding-converted")
+silent("c16-replacement-multiset-by-iteration", ["C16"], TFF,
+       "                arg = multiset.Multiset({self.from_matchpy_expr(expr): count\n"
+       "                                         for expr, count in arg.items()})",
+       "                arg = multiset.Multiset(self.from_matchpy_expr(expr)\n"
+       "                                        for expr in arg)")
+fire("c16-replacement-tuple-reversed", ["C16"], TFF,
+     "                arg = tuple(self.from_matchpy_expr(el) for el in arg)",
+     "                arg = tuple(self.from_matchpy_expr(el) for el in reversed(arg))",
+     "T/matchpy/replacement/tuple/binding-converted")
+fire("c16-replacement-expression-unconverted", ["C16"], TFF,
+     "            if isinstance(arg, MatchpyExpression):\n"
+     "                arg = self.from_matchpy_expr(arg)\n",
+     "            if isinstance(arg, MatchpyExpression):\n"
+     "                pass\n",
+     "T/matchpy/replacement/expression/binding-converted")
